@@ -9,7 +9,7 @@ from __future__ import annotations
 
 import json
 
-from .. import common, genrun, instgen, refmodel, specgen
+from .. import common, genrun, instgen, refmodel, shapes, specgen
 from ..common import Ctx
 
 LEVEL = "exploration"
@@ -185,7 +185,7 @@ def judge(d: specgen.Doc, call: dict, res: dict, rec, feats, case_base) -> None:
 def mk_doc(ctx: Ctx, trig: set[str]) -> specgen.Doc:
     kinds = ["sse", "binary", "text", "ndjson"]
     d = specgen.generate(ctx.rng, allow=trig, prof={"ops": (2, 5), "p_param": 0.3, "p_body": 0.2, "schemas": (2, 5), "p_multi2xx": 0.5,
-                                                    "p_stream": 0.3, "stream_kinds": kinds, "p_nullable_response": 0.3,
+                                                    "p_stream": 0.3, "stream_kinds": kinds, "p_nullable_response": 0.3, "json_media_variants": True,
                                                     "styles": ["camel", "snake", "kebab", "keywordish"], "p_self_ref": 0.0, "p_union": 0.0})
     return d
 
@@ -214,10 +214,22 @@ def run_doc(ctx: Ctx, it: dict) -> None:
     if po.get("errors"):
         rec.count("client_construct_errors_diagnostic")
         return
+    op_feats = getattr(d, "op_feats", None) or it.get("op_feats") or {}
+    if op_feats:
+        case_base["op_feats"] = op_feats
     for c in calls:
         r = po["results"].get(c["id"])
         if r is not None:
-            judge(d, c, r, rec, feats, case_base)
+            f2 = feats
+            if op_feats:
+                # shape catalogue: a violation is attributed to the shape of THIS operation's response
+                f2 = list(op_feats.get(c["seg"], [])) + ["shapes"]
+                rec.count("shape_responses_checked")
+                rec.seen("response_shapes_exercised", c["_exp"]["op"].get("shape"))
+            n0 = rec.counters.get("violations_raw", 0)
+            judge(d, c, r, rec, f2, case_base)
+            if op_feats and rec.counters.get("violations_raw", 0) > n0:
+                rec.seen("response_shapes_failing", c["_exp"]["op"].get("shape"))
     if len(rec.samples) < 2 and calls:
         c = calls[0]
         r = po["results"].get(c["id"], {})
@@ -234,10 +246,16 @@ def run_shard(ctx: Ctx) -> None:
         if r < 0.15:
             trig = TRIGGERS[0]
         run_doc(ctx, {"doc": mk_doc(ctx, trig), "n": ctx.shard * 100000 + b, "trigger": trig})
+    # the exhaustive shape catalogue as RESPONSE bodies: every wrapper(wrapper(leaf)) directly under a 200 response
+    cat = list(enumerate(shapes.all_shapes(2 if ctx.quick else 3)))
+    chunks = [cat[i:i + 20] for i in range(0, len(cat), 20)]
+    for ci, chunk in enumerate(chunks):
+        if ctx.mine(ci):
+            run_doc(ctx, {"doc": shapes.response_document(chunk), "n": ctx.shard * 100000 + 70000 + ci, "trigger": set()})
 
 
 def replay(ctx: Ctx, file: dict) -> None:
     common.use_repo()
     c = file["case"]
     d = specgen.Doc(c["doc"], c["sexp"], c["ops"], set(c["features"]))
-    run_doc(ctx, {"doc": d, "n": 1, "trigger": set(file.get("features", []))})
+    run_doc(ctx, {"doc": d, "n": 1, "trigger": set(file.get("features", [])), "op_feats": c.get("op_feats")})
